@@ -44,6 +44,8 @@ const (
 	ckWU0
 	ckUnknown
 	ckDataOther // DATA on a stream the client never opened
+	ckInterim   // a complete 1xx header block (:status 100), no END_STREAM
+	ckTrailers  // HEADERS with END_STREAM carrying one regular field
 	ckCount
 )
 
@@ -101,6 +103,8 @@ func (c *refClient) step(k int, i int, arg uint32) {
 	switch s.st {
 	case crAwait:
 		switch k {
+		case ckInterim:
+			// any number of 1xx blocks may come before the final one (8.1)
 		case ckHeaders:
 			s.st = crBody
 		case ckHeadersEnd:
@@ -116,6 +120,8 @@ func (c *refClient) step(k int, i int, arg uint32) {
 			s.body += "d"
 		case ckDataEnd:
 			s.body += "e"
+			s.st = crDone
+		case ckTrailers:
 			s.st = crDone
 		case ckHeadersOpen, ckHeadersOpenEnd:
 			// a second block with :status: malformed, and it is still a block
@@ -176,18 +182,23 @@ func vClientFrame(k int, id uint32, raw uint32) []byte {
 		return vFrame(0x8, vU8(), 0, be)
 	case ckUnknown:
 		return vFrame(0x20, vU8(), id, be)
+	case ckInterim:
+		return vFrame(0x1, 0x4, id, []byte{0x08, 0x03, '1', '0', '0'})
+	case ckTrailers:
+		return vFrame(0x1, 0x5, id, []byte{0x00, 0x03, 'x', '-', 'z', 0x01, 'z'})
 	default:
 		return vFrame(0x0, 0x0, 5, []byte("zz"))
 	}
 }
 
 // Two requests are in flight on streams 1 and 3. The server then sends every
-// sequence of 2 (quick) / 3 (thorough) frames drawn from eighteen kinds
+// sequence of 2 (quick) / 3 (thorough) frames drawn from twenty kinds
 // (HEADERS whole or opened, with or without END_STREAM, CONTINUATION, DATA
 // with and without END_STREAM, RST_STREAM with any code, WINDOW_UPDATE with
 // any increment, PRIORITY, PUSH_PROMISE, PING, SETTINGS, SETTINGS ACK, GOAWAY,
 // connection WINDOW_UPDATE, an unknown frame type, DATA on a stream that was
-// never opened; arbitrary flag bits where the type defines none) on either
+// never opened, a 1xx block, a trailer block; arbitrary flag bits where the
+// type defines none) on either
 // stream, and hangs up. No task traps; every request ends exactly once; a
 // request is reported successful only if the frames on its stream were a
 // complete, well-formed response, and then with that response's status and
